@@ -557,6 +557,7 @@ SOURCE_IT = 'self._source'
 _SEARCH_FAMILY = {'index', 'rfind', 'rindex', 'partition', 'rpartition', 'split', 'rsplit', 'count'}
 _E_BUF, _E_BLEN, _E_BPOS = _expr(BUF), _expr(BLEN), _expr(BPOS)
 _PURE_CALLS = ('len', 'min', 'max')
+_INT_METHODS = ('find', 'rfind', 'index', 'rindex', 'count', 'startswith', 'endswith')      # results are numbers / truth values
 
 # candidate loop invariants (Houdini: assumed at every loop head, dropped until inductive)
 _CANDIDATES = {
@@ -596,11 +597,48 @@ def _inlinable(callee, call):
     return True
 
 
+def _fork_ifexps(env, node):
+    """The states in which every conditional expression `a if c else b` of a statement / test has a decided
+    condition (conditions without calls only), so that both arms are followed as separate path states."""
+    envs, n = [env], 0
+    for x in walk_self(node):
+        if not isinstance(x, ast.IfExp) or any(isinstance(c, (ast.Call, ast.Await, ast.Yield, ast.YieldFrom, ast.NamedExpr)) for c in ast.walk(x.test)):
+            continue
+        n += 1
+        if n > 3:
+            break
+        nxt = []
+        for e in envs:
+            if e.decide(x.test) is not None:
+                nxt.append(e)
+            else:
+                nxt += e.assume(x.test, True) + e.assume(x.test, False)
+        envs = nxt
+    return envs
+
+
+def _run_steps(env, cfg, steps, on_node=None):
+    """linexpr.run_steps, except that an undecided conditional expression forks the path state."""
+    envs = [env]
+    for (nid, label) in steps:
+        n = cfg.node(nid)
+        if n.kind in ('stmt', 'test') and label != 'exc' and any(isinstance(x, ast.IfExp) for x in n.walk()):
+            envs = [e2 for e in envs for e2 in _fork_ifexps(e, n.ast)]
+        envs = [e2 for e in envs for e2 in run_steps(e, cfg, [(nid, label)], on_node)]
+        if not envs:
+            break
+    return envs
+
+
+_SINKS = ('append', 'write')             # <container>.append(x) / <file>.write(x): x is handed out (joined into the result / piped)
+
+
 class _StreamModel:
     """Abstract execution of every acyclic segment of one reader method with the ghost stream offset.
-    mode: 'R6' search starts, 'R7' early hand-out keeps a delimiter tail, 'R8' conservation of the cursor."""
+    mode: 'R6' search starts, 'R7' early hand-out keeps a delimiter tail, 'R8' conservation of the cursor
+    (generators), 'R9' conservation of the cursor (synchronous reader: returns, backlog appends, buffer replacement)."""
 
-    def __init__(self, run, v, rd, f, mode):
+    def __init__(self, run, v, rd, f, mode, len_params=()):
         self.run, self.v, self.rd, self.f, self.mode = run, v, rd, f, mode
         self.cfg = cfg_of(f, run.project)
         run.use_cfg(self.cfg)
@@ -608,13 +646,17 @@ class _StreamModel:
         self.quiet = True
         self.wit = None
         self.invariants = {}
+        self.len_params = set(len_params)       # parameters of f that always carry len(delimiter) or 0 (R3's _delim_params)
+        # methods through which new stream data enters (they call the source callable); none in the asynchronous reader
+        self.src_methods = {n for n, g in rd.methods.items() if n != '__init__' and any(
+            isinstance(x, ast.Attribute) and dotted(x) == SOURCE_FN and isinstance(x.ctx, ast.Load) for x in walk_self(g.node))}
 
     # ------------------------------------------------------------------ state
     def start_env(self, start):
         env = _start_env(self.rd, self.f, self.on_call)
         env.kind[('v', DELIM)] = 'seq'
         base = Lin.atom(('v', '<stream offset of _buffer[0]>'))
-        env.ghost.update(base=base, prev=base + env.var(BPOS), regions={}, srcnames=frozenset(), finds=(), lost=None, last=None)
+        env.ghost.update(base=base, prev=base + env.var(BPOS), regions={}, srcnames=frozenset(), finds=(), lost=None, last=None, replaced=())
         for c in sorted(self.invariants.get(start, ())):
             a, b = _CANDIDATES[c](env)
             env.add_eq(a, b)
@@ -657,6 +699,12 @@ class _StreamModel:
                 return [('src', e.id)] if e.id in g['srcnames'] else [('other',)]
         if isinstance(e, ast.Constant) and isinstance(e.value, (bytes, str)):
             return [('const', len(e.value))]
+        if self.src_methods and isinstance(e, ast.Call) and isinstance(e.func, ast.Attribute) and dotted(e.func.value) == 'self' \
+                and e.func.attr in self.src_methods:
+            return [('src', None)]                              # the next bytes of the stream, straight from the source
+        if isinstance(e, ast.Call) and ((isinstance(e.func, ast.Attribute) and e.func.attr in _INT_METHODS)
+                                        or (isinstance(e.func, ast.Name) and e.func.id in _PURE_CALLS)):
+            return [('other',)]                                 # a number / truth value, not bytes
         if isinstance(e, ast.BinOp) and isinstance(e.op, ast.Add):
             return self.pieces(env, e.left) + self.pieces(env, e.right)
         if isinstance(e, ast.Subscript) and isinstance(e.slice, ast.Slice):
@@ -692,6 +740,11 @@ class _StreamModel:
         ys = [x for x in walk_self(s) if isinstance(x, (ast.Yield, ast.YieldFrom))]
         if ys:
             self.on_yield(env, s, ys)
+        if self.mode == 'R9' and isinstance(s, ast.Return) and s.value is not None and self.f.name != 'peek':
+            # (peek() is the one public operation that returns buffered bytes without consuming them)
+            ps = self.pieces(env, s.value)
+            if any(p[0] in ('buf', 'src', 'opaque') for p in ps):
+                self.hand_out(env, ps, s)
         if not isinstance(s, (ast.Assign, ast.AugAssign, ast.AnnAssign)) or (isinstance(s, ast.AnnAssign) and s.value is None):
             return
         for t in (s.targets if isinstance(s, ast.Assign) else [s.target]):
@@ -700,6 +753,8 @@ class _StreamModel:
                 self.on_buffer_store(env, s)
                 g['last'] = s
             elif d == BPOS:
+                if self.mode == 'R9':
+                    self.on_cursor_store(env, s)
                 g['last'] = s
             elif isinstance(t, ast.Name):
                 ps = self.pieces(env, s.value)
@@ -724,6 +779,8 @@ class _StreamModel:
         base, end = g['base'], self.buffer_end(env)
         ps = self.pieces(env, s.value)
         kinds = [p[0] for p in ps]
+        if self.mode == 'R9':                                   # a fetched chunk is placed once: afterwards its name is ordinary data
+            g['srcnames'] = g['srcnames'] - {p[1] for p in ps if p[0] == 'src'}
         if isinstance(s, ast.AugAssign):
             if not isinstance(s.op, ast.Add) or 'buf' in kinds or 'opaque' in kinds:
                 self.lose(env, 'buffer update `%s` not understood' % short(s, 60))
@@ -732,10 +789,97 @@ class _StreamModel:
             self.lose(env, 'buffer update `%s` not understood' % short(s, 60))
         elif 'buf' not in kinds:
             g['base'] = end                                     # replaced by data that follows the old buffer in the stream
+            g['replaced'] = g['replaced'] + (s,)
         elif kinds[0] == 'buf' and ps[0][3] and 'buf' not in kinds[1:] and env.prove_eq(ps[0][2], end):
             g['base'] = ps[0][1]                                # trimmed (and possibly extended)
         else:
             self.lose(env, 'buffer update `%s` not understood' % short(s, 60))
+
+    # ------------------------------------------------- R9: hand-outs and commit points of the synchronous reader
+    def is_delim_len(self, x):
+        return isinstance(x, Lin) and (x == self.dl or (x.lone() is not None and x.lone()[0] == 'v' and x.lone()[1] in self.len_params))
+
+    def on_cursor_store(self, env, s):
+        """A cursor advance by a delimiter length (verified by R3) moves over bytes that are deliberately not returned."""
+        if any(isinstance(c, ast.Call) and not (isinstance(c.func, ast.Name) and c.func.id in _PURE_CALLS) for c in ast.walk(s.value)):
+            return
+        old = env.eval(_E_BPOS)
+        if isinstance(s, ast.AugAssign):
+            amount = env.eval(s.value) if isinstance(s.op, ast.Add) else None
+        else:
+            new = env.eval(s.value)
+            amount = new - old if isinstance(new, Lin) and isinstance(old, Lin) else None
+        if isinstance(old, Lin) and self.is_delim_len(amount):
+            cur = env.ghost['base'] + old
+            self.hand_out(env, [('buf', cur, cur + amount, True)], s)
+
+    def hand_out(self, env, ps, s):
+        """The bytes `ps` leave the reader (returned, appended to the backlog, piped, or skipped as a delimiter):
+        they must start where the previous hand-out ended."""
+        g = env.ghost
+        if any(p[0] in ('opaque', 'other') or (p[0] == 'const' and p[1]) or (p[0] == 'buf' and not p[3]) for p in ps):
+            self.lose(env, '`%s`: the bytes handed out are not a tracked region of the buffer / fresh data of the source' % short(s, 60))
+        if g['lost']:
+            self.unknown(g['lost'])
+            return
+        for p in ps:
+            if p[0] == 'const':
+                continue
+            if p[0] == 'buf':
+                lo, hi = p[1], p[2]
+            else:                                               # straight from the source: everything buffered must be out already
+                n = Lin.atom(fresh('len(source data)'))
+                env.add_le(0, n)
+                lo = self.buffer_end(env)
+                hi = lo + n
+                g['base'] = g['base'] + n
+                if p[1]:
+                    g['srcnames'] = g['srcnames'] - {p[1]}
+            ok = env.prove_eq(g['prev'], lo)
+            if not self.quiet:
+                if not ok and (lo - g['prev']).tainted():
+                    self.unknown('; '.join(env.notes[-2:]))
+                else:
+                    self.v.note(self.f, 'contiguous @%s' % unparse(s),
+                                'bytes handed out (returned, appended to the backlog, or skipped as a verified delimiter) start exactly where the previous hand-out ended',
+                                ok, s, 'the bytes handed out start %r byte(s) from the end of the previous hand-out / the cursor at entry (not provably 0)' % (lo - g['prev'],),
+                                self.wit, 'buffered bytes are returned twice or skipped by the synchronous reader')
+            g['prev'] = hi
+
+    def commit(self, env, at, call=None):
+        """A point where other code looks at the cursor (end of the path, loop head, call of a method that moves the
+        buffer): the cursor must stand exactly behind the last byte handed out."""
+        g = env.ghost
+        if self.quiet:
+            return
+        if g['lost']:
+            self.unknown(g['lost'])
+            return
+        cur = self.cursor(env)
+        if cur is None:
+            return
+        d = cur - g['prev']
+        ok = env.prove_eq(g['prev'], cur)
+        if not ok and d.tainted():
+            self.unknown('; '.join(env.notes[-2:]))
+            return
+        if not ok and call is not None and any(p[0] == 'buf' and env.prove_eq(p[1], g['prev']) for r in g['regions'].values() for p in r):
+            self.unknown('buffered bytes held in a local are still to be handed out when `%s` moves the buffer: not modelled' % short(call, 50))
+            return
+        rw = ('BufferedReader(BytesIO(b"ab--cd-e--fgh").read, 13, 4): read(3), read_until(b"--", 1), read(1) -> b"-" instead of b"c" '
+              '(buffered bytes are skipped, or returned twice, by the next read)')
+        reps = []
+        for r in g['replaced']:
+            if not any(r is x for x in reps):
+                reps.append(r)
+        for r in reps:
+            self.v.note(self.f, 'replaced @%s' % unparse(r),
+                        'when the buffer is replaced by the next data of the stream the cursor is re-based with it (reset, or already 0 / at the end of the drained buffer)',
+                        ok, r, 'after `%s` the cursor stands %r byte(s) behind the last byte handed out %s (not provably 0): %s keeps a value that belongs to the old buffer'
+                        % (short(r, 50), d, at, BPOS), self.wit, rw)
+        self.v.note(self.f, 'cursor between hand-outs', 'between hand-outs the cursor keeps its stream position: it stands exactly behind the last byte handed out '
+                    'at every exit, loop head and call of a method that moves the buffer', ok or bool(reps), g['last'] if g['last'] is not None else self.f.name,
+                    '%s the cursor is %r byte(s) from the end of the last hand-out (not provably 0)' % (at, d), self.wit, rw)
 
     def on_node(self, env, n, label):
         if label == 'exc':
@@ -753,6 +897,13 @@ class _StreamModel:
     # ------------------------------------------------------------------ calls
     def on_call(self, env, call):
         fn = call.func
+        if self.mode == 'R9':
+            argp = [self.pieces(env, a) for a in list(call.args) + [k.value for k in call.keywords] if not isinstance(a, ast.Starred)]
+            if isinstance(fn, ast.Attribute) and fn.attr in _SINKS and dotted(fn.value) != 'self' and len(argp) == 1 and not call.keywords:
+                if any(p[0] in ('buf', 'src', 'opaque') for p in argp[0]):
+                    self.hand_out(env, argp[0], call)
+            elif any(p[0] in ('buf', 'opaque') for ps in argp for p in ps):
+                self.lose(env, 'buffered bytes are passed to `%s`: whether that hands them out is not modelled' % short(call, 50))
         if not isinstance(fn, ast.Attribute):
             return None
         recv_self = dotted(fn.value) == 'self'
@@ -776,14 +927,24 @@ class _StreamModel:
                 env.eval(a.value if isinstance(a, ast.Starred) else a)
             hv = [a for a in (BUF, BLEN, BPOS) if a in (self.rd.writes(fn.attr) or set())]
             if hv:
+                was_lost = env.ghost['lost']
+                if self.mode == 'R9':
+                    self.commit(env, 'when %s() is called' % fn.attr, call)
                 env.havoc(hv, 'after %s' % fn.attr)
                 nb = env.vars[BUF].lone() if BUF in env.vars and isinstance(env.vars[BUF], Lin) else None
                 if BUF in hv and nb is not None:
                     env.kind[nb] = 'seq'
+                for a in (BLEN, BPOS):
+                    if a in hv and env.vars[a].lone() is not None:
+                        env.kind[env.vars[a].lone()] = 'int'
+                        env.ghost['fieldsyms'] = env.ghost.get('fieldsyms', frozenset()) | {env.vars[a].lone()}
                 env.add_eq(env.eval(_E_BLEN), env.length(env.eval(_E_BUF), BUF))     # class invariant, the callee's own obligation (R1)
                 env.add_le(0, env.eval(_E_BPOS))
                 env.add_le(env.eval(_E_BPOS), env.eval(_E_BLEN))
                 self.lose(env, 'the buffer is changed inside %s()' % fn.attr, confused=False)
+                if self.mode == 'R9':       # the callee accounts for what it hands out (its own obligation): start afresh behind it
+                    env.ghost['lost'] = was_lost
+                    env.ghost['replaced'] = ()
             return Lin.atom(fresh('result of ' + short(call, 30)))
         return None
 
@@ -796,22 +957,42 @@ class _StreamModel:
         extra = [env.eval(a.value if isinstance(a, ast.Starred) else a) for a in call.args[1:]] + [env.eval(k.value) for k in call.keywords]
         recv = call.func.value
         cur = self.cursor(env)
-        starts, covers = [], False
+        starts, covered = [], None            # covered: (absolute start, absolute upper bounds) of the range a failed search vouches for
+
+        def understood(x):                    # a start / end argument: a non-negative offset built from tracked quantities
+            return isinstance(x, Lin) and not (x.is_const and x.c < 0) and not any(
+                a[0] in ('sym', 't') and a not in g.get('fieldsyms', ()) for a in x.atoms())
+
+        if call.keywords or len(extra) > 2:
+            self.unknown('arguments of `%s` not understood' % short(call, 60))
+            return R
         if dotted(recv) == BUF:
-            if call.keywords or (extra and (not isinstance(extra[0], Lin) or (extra[0].is_const and extra[0].c < 0))):
+            if extra and (not isinstance(extra[0], Lin) or (extra[0].is_const and extra[0].c < 0)):
                 self.unknown('start argument of `%s` not understood' % short(call, 60))
                 return R
             starts = [g['base'] + extra[0] if extra else g['base']]
-            covers = len(extra) < 2
+            origin, ends = g['base'], [self.buffer_end(env)]
         else:
             ps = self.pieces(env, recv)
             if any(p[0] == 'opaque' for p in ps):
                 self.unknown('delimiter searched in `%s`, whose relation to the buffer is not understood' % short(recv, 60))
                 return R
             starts = [p[1] for p in ps if p[0] == 'buf']
-            covers = len(ps) == 1 and ps[0][0] == 'buf' and ps[0][3] and not extra and env.prove_eq(ps[0][2], self.buffer_end(env))
-        if covers:
-            g['finds'] = g['finds'] + ((R, env.eval(_E_BUF)),)
+            origin, ends = None, None
+            if len(ps) == 1 and ps[0][0] == 'buf' and ps[0][3] and (len(extra) == 2 or env.prove_eq(ps[0][2], self.buffer_end(env))):
+                origin, ends = ps[0][1], [ps[0][2]]
+        if ends is not None:
+            # bytes.find(sub, start, end): the WHOLE match lies in [start, end) -- a failed search says nothing
+            # about a delimiter that starts before `end` and ends behind it
+            if len(extra) == 2:
+                if not understood(extra[1]) or not understood(extra[0]):
+                    self.unknown('end bound of `%s` not understood' % short(call, 60))
+                    return R
+                ends = ends + [origin + extra[1]]
+            if not extra or understood(extra[0]):
+                covered = (origin + extra[0] if extra else origin, tuple(ends))
+        if covered is not None:
+            g['finds'] = g['finds'] + ((R, env.eval(_E_BUF), covered[0], covered[1]),)
         if self.mode == 'R6' and not self.quiet and cur is not None:
             for st in starts:
                 ok = env.prove_le(cur, st)
@@ -830,6 +1011,9 @@ class _StreamModel:
         return a is b or (isinstance(a, Lin) and isinstance(b, Lin) and a == b and a.lone() is not None)
 
     def on_yield(self, env, s, ys):
+        if self.mode == 'R9':
+            self.lose(env, '`%s`: a generator in the synchronous reader is not modelled' % short(s, 60))
+            return
         if self.mode not in ('R7', 'R8'):
             return
         g = env.ghost
@@ -874,20 +1058,29 @@ class _StreamModel:
                         'asgi BufferedReader over [b"abcdef"]: read_until(b"ZZ") -> b"abcdef", then read() returns b"abcdef" again and tell() lags behind')
         if self.mode == 'R7' and not self.quiet and ps[0][0] == 'buf':
             bufval = env.eval(_E_BUF)
-            for (R, bv) in g['finds']:
+            for (R, bv, st, ends) in g['finds']:
                 if not self._same(bv, bufval) or not _is_negative(env, R):
                     continue
-                end = self.buffer_end(env)
-                ok = env.prove_le(hi + self.dl - Lin.const(1), end)
+                need = hi + self.dl - Lin.const(1)
+                short_of = [e for e in ends if not env.prove_le(need, e)]
+                ok = not short_of and env.prove_le(st, lo)
+                if short_of:
+                    msg = '%r byte(s) lie between the end of the yielded region and the end of the searched range; not provably >= len(delimiter) - 1' % (short_of[0] - hi,)
+                else:
+                    msg = 'the failed search started %r byte(s) behind the first yielded byte (not provably <= 0)' % (st - lo,)
                 self.v.note(self.f, 'delimiter tail kept @%s' % unparse(s),
-                            'when the delimiter was not found in the buffered data, an early hand-out leaves at least len(delimiter) - 1 bytes in the buffer',
-                            ok, s, '%r byte(s) remain after the yielded region; not provably >= len(delimiter) - 1' % (end - hi,), self.wit,
+                            'when the delimiter was not found in the searched range of the buffered data, an early hand-out stays at least len(delimiter) - 1 bytes '
+                            'short of the end of that range (the end of the buffer and, if given, the end bound of the search)',
+                            ok, s, msg, self.wit,
                             'source chunks b"a--", b"-b" with the first one buffered (peek): read_until(b"---", 2) returns b"a-" instead of b"a" '
-                            '(the first bytes of a delimiter completed by the next chunk are handed out)')
+                            '(the first bytes of a delimiter that ends behind the searched range are handed out)')
         g['base'] = base_after
         g['prev'] = base_after + env.eval(_E_BPOS)
 
     def on_end(self, env, end):
+        if self.mode == 'R9':
+            self.commit(env, 'at the end of the path')
+            return
         if self.mode != 'R8' or self.quiet:
             return
         g = env.ghost
@@ -914,7 +1107,7 @@ class _StreamModel:
             for start, steps, end in segs:
                 if not inv.get(end):
                     continue
-                for e in run_steps(self.start_env(start), cfg, steps, self.on_node):
+                for e in _run_steps(self.start_env(start), cfg, steps, self.on_node):
                     if any(k == 'raise' for k, _v, _n in e.log):
                         continue
                     for c in sorted(inv[end]):
@@ -928,7 +1121,7 @@ class _StreamModel:
             if end == cfg.xexit:
                 continue
             self.wit = flow.describe_path(cfg, [s[0] for s in steps])
-            for e in run_steps(self.start_env(start), cfg, steps, self.on_node):
+            for e in _run_steps(self.start_env(start), cfg, steps, self.on_node):
                 if any(k == 'raise' for k, _v, _n in e.log):
                     continue
                 self.on_end(e, end)
@@ -995,6 +1188,30 @@ def r8_cursor_conservation(run):
     v.flush()
 
 
+def r9_sync_cursor_conservation(run):
+    """(D) conservation of the cursor in the synchronous reader: whenever the buffer is replaced / trimmed / bytes are
+    returned, appended to the backlog or skipped as a delimiter, the cursor ends up exactly behind the last byte handed out."""
+    v = Verdicts(run)
+    run.assume(_MODEL_ASSUMPTION)
+    run.assume('C14 R9: data assigned / appended to the buffer that is not derived from the buffer is the next data of the stream '
+               '(R2: the source is read in one place); a value returned by a method that moves the buffer is what that method handed out '
+               '(its own R9 obligation); peek() returns without consuming; a cursor advance by a delimiter length is a verified skip (R3)')
+    rd = Reader(run.project, SYNC)
+    require_attrs(run.project, SYNC, [SOURCE_FN])
+    dparams = _delim_params(rd, run)
+    todo = [f for name, f in sorted(rd.methods.items()) if name != '__init__' and {BUF, BPOS} & _stores(f)]
+    if len([f for f in todo if BUF in _stores(f)]) < 3:
+        raise AnchorError('%s: fewer than 3 methods assign %s' % (SYNC, BUF))
+    n_rep = 0
+    for f in todo:
+        m = _StreamModel(run, v, rd, f, 'R9', len_params={q for (mn, q) in dparams if mn == f.name})
+        m.execute()
+    n_rep = sum(1 for (q, kind) in v.items if kind.startswith('replaced @'))
+    if not n_rep:
+        raise AnchorError('%s: no method replaces the buffer by new data' % SYNC)
+    v.flush()
+
+
 def check(run):
     run.assume('C14: only falcon/util/reader.py and falcon/asgi/reader.py are decided; falcon/cyutil/reader.pyx (the compiled twin) is not analysed')
     run.extra['twin_drift_note'] = 'falcon/cyutil/reader.pyx is a hand-maintained Cython twin of falcon/util/reader.py; not parsed, not compared'
@@ -1006,3 +1223,4 @@ def check(run):
     run.rule('R6', r6_search_start, 'no delimiter search looks at bytes in front of the cursor', floor=6)
     run.rule('R7', r7_delimiter_not_split, 'async reader: a size-capped early hand-out never splits a delimiter', floor=1)
     run.rule('R8', r8_cursor_conservation, 'async reader: bytes yielded from the buffer are exactly the bytes the cursor moves over', floor=9)
+    run.rule('R9', r9_sync_cursor_conservation, 'sync reader: the cursor stands behind the last byte handed out after every replacement / trim / return', floor=8)
